@@ -12,6 +12,14 @@ type T struct {
 	args []*T
 	sort string
 	def  *T // for named atoms: the definition (used for folding only)
+	bit  *bitMeta // int mode: this value is 1<<n or ^(1<<n) for the recorded n
+}
+
+// bitMeta records that an int-mode term is a single-bit pattern
+type bitMeta struct {
+	n   *T  // bit index (Int term)
+	w   int // width of the value
+	neg bool // the complement ^(1<<n)
 }
 
 func atom(s, sort string) *T { return &T{op: s, sort: sort} }
